@@ -73,7 +73,12 @@ fn split_string(str: String) -> Vec<LogArgument> {
     let sub_len = 230;
     let mut cur = str;
     while !cur.is_empty() {
-        let (chunk, rest) = cur.split_at(std::cmp::min(sub_len, cur.len()));
+        // Split on a character boundary.
+        let mut len = std::cmp::min(sub_len, cur.len());
+        while !cur.is_char_boundary(len) {
+            len -= 1;
+        }
+        let (chunk, rest) = cur.split_at(len);
         v.push(LogArgument::LogStr(chunk.to_string()));
         cur = rest.to_string();
     }
